@@ -54,6 +54,10 @@ type docgen struct {
 
 func name(t *rapid.T) string {
 	n := rapid.StringMatching(`[a-zA-Z_][a-zA-Z0-9_.-]{0,5}`).Draw(t, "name")
+	if rapid.IntRange(0, 5).Draw(t, "nonascii") == 0 {
+		// names may start with and contain letters beyond ASCII
+		n = rapid.SampledFrom([]string{"é", "élément", "文書", "Ωmega", "ñ", "a·b", "Ä1"}).Draw(t, "nonasciiname") + rapid.StringMatching(`[a-z0-9_.-]{0,3}`).Draw(t, "nametail")
+	}
 	if rapid.IntRange(0, 4).Draw(t, "ns") == 0 {
 		n = rapid.StringMatching(`[a-z]{1,3}`).Draw(t, "prefix") + ":" + n
 	}
@@ -151,7 +155,8 @@ func (g *docgen) content(depth, n int) {
 			}
 			var sb strings.Builder
 			for k := rapid.IntRange(1, 4).Draw(t, "tn"); k > 0; k-- {
-				sb.WriteString(rapid.SampledFrom([]string{"text", " ", "\n", "é", ">", "]]", "a=b", "\"", "'", "-->", "?>", "/"}).Draw(t, "tpart"))
+				// (U+FEFF inside a document is a character like any other, also at the start of a text run)
+				sb.WriteString(rapid.SampledFrom([]string{"text", " ", "\n", "é", ">", "]]", "a=b", "\"", "'", "-->", "?>", "/", "\uFEFF", "\uFEFFfirst", "\u00a0", "\u2028", "中"}).Draw(t, "tpart"))
 			}
 			s := strings.ReplaceAll(sb.String(), "]]>", "]] >")
 			g.toks = append(g.toks, tok{xml.TextToken, s, s, noVal})
